@@ -89,6 +89,11 @@ CLAIMS = {
   'design_ref': 'DESIGN.md section 4 / C15',
   'note': 'Trusted: abstract asyncio model (Queue, tasks, done-callbacks run in a later iteration). Not decided: wall-clock retry delays. manage_user_tracking (TRANSFER reason) only as a BOUNDED stand-in. One defect found and fixed (8ac5641).',
  },
+ 'C16': {
+  'text': 'Proof per handler / exit path. login() is executed for every kind of reply: Login.Request first, AuthenticationError iff rejected, no session and no reader on any failure, on success exactly one SessionInitializedEvent carrying the new session and the reader started only after it was delivered. Each SessionInitialized handler is executed as a function of the settings: SetListenPort from the 9 combinations of listening-connection states, CheckPrivileges + SetStatus(ONLINE) + friend tracking, TogglePrivateRoomInvites(setting) and JoinRoom for the favourites iff auto_join, interests, share counts. Session destruction is read-and-clear in one atomic section (one SessionDestroyedEvent per session, nothing for other connections/states) and users, rooms and server-sent distributed parameters are reset on CLOSED. The watchdog table is exhaustive over state x close reason x settings (started on CONNECTED iff auto-reconnect; stopped on REQUESTED or EOF only; reconnects only from CLOSED with credentials; re-login iff auto). stop(): every manager the client constructs is in services, Network.disconnect cancels every BackgroundTask the Network owns and disconnects every connection, each manager cancels and returns the handles it owns, and the client awaits them.',
+  'design_ref': 'DESIGN.md section 4 / C16',
+  'note': 'Trusted: hand-over point sent[server], abstract asyncio model, static enumeration of task-creation sites (AST). List-valued settings only as BOUNDED stand-ins (0..2 entries, [bounded], not counted). Not decided: liveness of the reconnect, the untracked shares.scan() task, peer-connection tasks cancelled but not awaited by stop(). Four defects found and fixed (d5d7ff0, d56ea2e, 3ce7fe8, 12a76a0).',
+ },
 }
 
 NA_DEFAULT = 'check not built yet (work in progress; see DESIGN.md section 4 for the planned contracts)'
